@@ -21,6 +21,7 @@
     load_outcome_is_first_on_path reload_current_full_iff_noshadow
     reload_current_noshadow_racing_partial mtime_reuse_serves_stale
     pathload_outcome_is_first_on_path pathload_failed_load_is_noop pathload_cache_keys_unique
+    pathload_touches_only_its_key pathload_uptodate_none_always_reloads
 -/
 import Genshi.Lemmas.Lru
 import Genshi.Lemmas.LruAbs
@@ -710,6 +711,35 @@ example : (LoaderP.load exCfg exFs (LoaderP.LState.init 2) { filename := ['q'] }
 example : ((LoaderP.hrun exCfg ⟨exFs, 5, LoaderP.LState.init 2⟩
       [.load { filename := ['t'] }, .load { filename := ['.', '/', 's', '/', '.', '.', '/', 't'] },
        .load { filename := ['p', '/', 't'] }]).1.ls.cache.items.map (·.1)) = [['p', '/', 't'], ['t']] := by decide
+
+/-- … and a load touches the entry of its own key only — the normalised name
+    `normpath(join(dirname(relative_to), filename))` — whatever path item delivers the file and
+    whatever `filename` that item reports: what is cached under any other key afterwards was
+    cached under it before (it can only disappear, as the least recently used entry). -/
+theorem pathload_touches_only_its_key (cfg : LoaderP.Cfg) (fs : LoaderP.FS) (s : LoaderP.LState)
+    (r : LoaderP.Req) (k : LoaderP.Key) (t : LoaderP.Tmpl)
+    (hk : k ≠ LoaderP.resolve cfg.path.isEmpty r)
+    (h : alookup k (LoaderP.load cfg fs s r).1.cache.items = some t) :
+    alookup k s.cache.items = some t :=
+  LoaderP.load_other_key cfg fs s r k t hk h
+
+/-- The `uptodate` half of the callable contract: a template delivered with `uptodate=None`
+    (what `package()` returns) is never considered current — with automatic reloading every load
+    of its key walks the search path again, so `pathload_outcome_is_first_on_path` applies to it
+    (it always reflects the current content; it is parsed on every load). -/
+theorem pathload_uptodate_none_always_reloads (cfg : LoaderP.Cfg) (har : cfg.autoReload = true)
+    (fs : LoaderP.FS) (s : LoaderP.LState) (r : LoaderP.Req)
+    (hu : s.utd (LoaderP.resolve cfg.path.isEmpty r) = some .never) :
+    alookup (LoaderP.resolve cfg.path.isEmpty r) s.cache.items = none ∨
+      (cfg.autoReload = true ∧ LoaderP.stillCurrent fs s (LoaderP.resolve cfg.path.isEmpty r) = false) := by
+  right
+  exact ⟨har, by simp [LoaderP.stillCurrent, hu]⟩
+
+-- a callable without an up-to-date check: the second load parses again (identity 1), also when
+-- nothing changed
+example : ((LoaderP.hrun ⟨[.fn ['/', 'a'] false true], true, 2, true⟩ ⟨exFs, 5, LoaderP.LState.init 2⟩
+      [.load { filename := ['t'] }, .load { filename := ['t'] }]).2) =
+    [some (.ok ⟨0, ['/', 'a', '/', 't'], ['@', 't'], 7, 0, 0⟩), some (.ok ⟨1, ['/', 'a', '/', 't'], ['@', 't'], 7, 0, 0⟩)] := by decide
 
 end LoaderPath
 
